@@ -165,6 +165,9 @@ class EngineModel:
                 if isinstance(s, ast.Assign) and any(is_name(t, call.func.id) for t in s.targets):
                     if 'eval_context' in norm(s.value):
                         return True
+                    # looked up through a helper and called with the caller's argument list
+                    if any(isinstance(a, ast.Starred) for a in call.args) and isinstance(s.value, ast.Call) and not cs:
+                        return True
         return False
 
 
